@@ -11,6 +11,13 @@ results are compared: records (JSON event stores replayed, entities canonicalise
 (address, bytes, modes), workspace entries (kind, bytes, writability, link targets canonicalised), storage
 tree, parsed rows of `list`.  TIE: the paths the command touched in copy B vs the target set the compiled
 model driver (`targetsmodel`) selects for (cwd, targets, recorded paths, paths on disk).
+
+Layouts (`case['layout']`, default `base`): `base` (a, a/b, a/b/c, ...), `prefix` (adversarial names: siblings --
+directories and files -- whose name extends the name of the cwd, at the root, nested and at depth 2; names that are
+prefixes of each other), `mini` (the minimised scenario of seeded/C18-1: data/a.txt, data2/b.txt).  Second sentence of
+C18 ("with no targets it applies to the files under the current directory"): besides root-with-`cwd/` vs subdirectory
+without targets, a direct oracle on the observations (everything the command acted on lies COMPONENT-wise below the
+cwd), and in the tie model selection == Lean specification `properAncestor` == component-wise descendants.
 """
 import concurrent.futures, hashlib, json, os, shutil, stat
 from common import Check, run_lines, shrink
@@ -770,6 +777,8 @@ def run(chk: Check):
         'the shortcut of targets_from_disk for plain file names (stat instead of walk) returns the same set as the walk (checked by the metamorphic comparison: the root run takes the shortcut, the subdirectory run does not)',
         'records of directories are compared by path and type only; `.gitignore` files as sorted lines without xvc\'s time-stamped banner',
         'local storage is created with an absolute path (relative path: known finding)',
+        'file and directory names are literal: letters, digits, `.`, `-`, `_` (glob metacharacters in names: known gap of the unchanged binary, not generated)',
+        'messages are not compared (only effects and the rows of `list`); a differing number of [ERROR] lines between the directories is counted in the distribution (error-line-count-differs-between-directories:<family>)',
     ]
     n = 100 if quick else 1000
     cases = [dict(c) for c in CORPUS]
